@@ -40,7 +40,7 @@ def _only_raises_undefined(fn) -> bool:
 
 def run(repo: Repo) -> Result:
     res = Result(PID)
-    res.rules = ["C16-STRICT", "C16-DEFAULT", "C16-FALSY", "C16-ENV"]
+    res.rules = ["C16-STRICT", "C16-DEFAULT", "C16-FALSY", "C16-ENV", "C16-SWALLOW"]
     res.explanation = "table agreement between Undefined's implicit-protocol methods and the strict subclasses' overrides"
     res.assumptions = ["the first sentence of the property (equal output on success) is value-level and not decided"]
     und = repo.cls(f"{U}.Undefined")
@@ -149,6 +149,38 @@ def run(repo: Repo) -> Result:
     if n < 8:
         raise AnchorMissing(f"only {n} env.undefined(...) construction sites found")
     res.stats.update(protocol_methods=sorted(set(base_protocol) | {"__bool__"}), env_undefined_sites=n)
+    # ---- C16-SWALLOW ----------------------------------------------------------------------
+    # The strict types work by raising UndefinedError from the protocol methods; any `except`
+    # between the touch and the render boundary whose classes cover UndefinedError (Exception,
+    # LiquidError, bare except ...) and that does not re-raise / route to env.error turns
+    # "filtering a missing variable raises" into a silently computed value.
+    from ..engines import hnd
+
+    H = hnd.Hier(repo)
+    REVIEWED_HANDLERS = {
+        "liquid.environment.Environment.from_string|Exception": "parse time (no render data yet); the Liquid family is re-raised by the preceding handler",
+    }
+    n_h = 0
+    for h in hnd.handlers(repo):
+        if h.classes and not H.catches(h.classes, "UndefinedError"):
+            continue
+        n_h += 1
+        res.ob(f"handler:{h.func.qual}:{','.join(h.classes) or 'bare'}")
+        if h.kinds <= {"reraise", "route"} and h.kinds:
+            continue
+        key = f"{h.func.qual}|{','.join(h.classes)}"
+        if key in REVIEWED_HANDLERS:
+            continue
+        res.add(
+            "C16-SWALLOW",
+            h.func.qual,
+            f"except {','.join(h.classes) or 'bare'}:{'+'.join(sorted(h.kinds))}",
+            f"{h.func.qual}: `except {', '.join(h.classes) or '<bare>'}` also catches UndefinedError and {'swallows it' if 'swallow' in h.kinds else 'replaces it (' + ', '.join(h.raised) + ')'}: with a strict undefined type, touching a missing variable inside this try no longer raises UndefinedError",
+            h.func.file,
+            h.node.lineno,
+        )
+    if n_h < 6:
+        raise AnchorMissing(f"only {n_h} handlers that can catch UndefinedError found (routers in parser/template expected)")
     return res
 
 
